@@ -212,7 +212,7 @@ def evaluate(clause, cfg):
 def run(ctx):
     quick = ctx.tier == "quick"
     rng = random.Random(ctx.seed)
-    B = Bounded("matplotlib Agg; reservoirs {IdealReservoir, SinglePhaseReservoir} on tests/data/pvt_gas.csv with (nx, len(time)) in %s, sqrt-spaced times; every in {1, 4, 5, 7, 10, 200, len-1, len} "
+    B = Bounded("matplotlib Agg; reservoirs {IdealReservoir, SinglePhaseReservoir} on tests/data/pvt_gas.csv with (nx, len(time)) in %s, sqrt-spaced times, plus one IdealReservoir run with 12001 time levels; every in {1, 4, 5, 7, 10, 200, len-1, len} "
                 "(incl. len-1 a multiple of every), rescale in {False, True}, ax passed / created; recovery factor and rate plots with both change_ticks settings; production comparison on %d seeded "
                 "synthetic tables x filter_window_size {None, 1, 7} x filter_zero_prod_days {True, False}; square-root transform on %d seeded non-negative arrays (1-D and column), values 0 and 1e-100 .. 1e100 (squares and roots representable)"
                 % ("{(12, 21), (30, 20)}" if quick else "{(12, 21), (30, 20), (8, 11), (50, 61), (20, 2)}", 2 if quick else 8, 4 if quick else 40))
@@ -233,6 +233,12 @@ def run(ctx):
                     emit("rf_curve", {**base, "change_ticks": ticks, "pass_ax": pass_ax})
                     if nt > 2:
                         emit("rate_curve", {**base, "change_ticks": ticks, "pass_ax": pass_ax})
+    # a long run (more samples than a figure has pixels): every sample is still drawn
+    long_run = {"class": "IdealReservoir", "nx": 5, "nt": 12001, "t_end": 9.0, "p_f": 1000.0, "p_i": 8000.0}
+    for ticks in (False, True):
+        emit("rf_curve", {**long_run, "change_ticks": ticks, "pass_ax": ticks})
+        emit("rate_curve", {**long_run, "change_ticks": ticks, "pass_ax": ticks})
+    emit("pp_curves", {**long_run, "every": 3000, "rescale": False, "pass_ax": True})
     for k in range(2 if quick else 8):
         d = {"seed": rng.randrange(10**6), "n_keep": rng.randint(25, 60), "M": round(10 ** rng.uniform(3.0, 4.5), 2), "tau": round(10 ** rng.uniform(1.6, 2.8), 3), "p_i": round(rng.uniform(3000.0, 9000.0), 1)}
         for window in (None, 1, 7):
